@@ -77,3 +77,7 @@ traversal_c03 = _traversal(("C03_",))
 traversal_c04 = _traversal(("C04_",))
 traversal_c05 = _traversal(("C05_",))
 traversal_c08 = _traversal(("C08_",))
+
+
+def restr_filter(run, tier):
+    run_harness(run, "restr_filter.py", tier)
